@@ -22,6 +22,7 @@ CLAUSE = CLAUSE + (" (RF-CMP) every comparison of the current position with the 
                    "(forward >=, backward <=).")
 CLAUSE = CLAUSE + (" (RF-WIDTH) the subpage range the walk iterates over is stored in fields wide enough for every subcode.")
 CLAUSE = CLAUSE + (" The DFA minimisation compares the acceptance of every pair of successor states it examines, inside the pair loop.")
+CLAUSE = CLAUSE + (' The page walk enters a page at subno_max when walking backward and at subno_min when walking forward.')
 NOT_DECIDED = ("that exactly the matching pages are found, in order, each once (values); the regex engine's matching semantics; "
                "haystack construction.")
 
